@@ -201,3 +201,70 @@ def difference_comparator(fn):
     if l1 is not None and l1 == r0:
         return ('desc', l1)
     return None
+
+
+def exists_predicates(fd):
+    """Names (and expressions) of fd that mean "some element of a sequence satisfies P":
+         flag = False; for x in seq: flag = flag or P(x)          flag = False; for x in seq: if P(x): flag = True
+         flag = any(P(x) for x in seq)                            flag = seq.some(x => P(x))
+    -> {name: (P as an expression, element variable name, sequence expression)}."""
+    import ast as _ast
+    out = {}
+
+    def lam(fn):
+        if isinstance(fn, _ast.Lambda) and fn.args.args:
+            return fn.args.args[0].arg, fn.body
+        ref = getattr(fn, 'js_function_ref', None)
+        if ref is not None and ref.args.args:
+            sts = [s_ for s_ in ref.body if not isinstance(s_, _ast.Pass)]
+            if len(sts) == 1 and isinstance(sts[0], _ast.Return) and sts[0].value is not None:
+                return ref.args.args[0].arg, sts[0].value
+        return None
+    for n in _ast.walk(fd):
+        if isinstance(n, _ast.Assign) and len(n.targets) == 1 and isinstance(n.targets[0], _ast.Name):
+            v = n.value
+            if isinstance(v, _ast.Call) and isinstance(v.func, _ast.Name) and v.func.id == 'any' and len(v.args) == 1 and isinstance(v.args[0], (_ast.GeneratorExp, _ast.ListComp)) and len(v.args[0].generators) == 1 and not v.args[0].generators[0].ifs and isinstance(v.args[0].generators[0].target, _ast.Name):
+                g = v.args[0].generators[0]
+                out[n.targets[0].id] = (v.args[0].elt, g.target.id, g.iter)
+            if isinstance(v, _ast.Call) and isinstance(v.func, _ast.Attribute) and v.func.attr == 'some' and len(v.args) == 1 and lam(v.args[0]):
+                prm, body = lam(v.args[0])
+                out[n.targets[0].id] = (body, prm, v.func.value)
+        if isinstance(n, _ast.For) and isinstance(n.target, _ast.Name):
+            for st in n.body:
+                # flag = flag or P(x)
+                if isinstance(st, _ast.Assign) and len(st.targets) == 1 and isinstance(st.targets[0], _ast.Name) and isinstance(st.value, _ast.BoolOp) and isinstance(st.value.op, _ast.Or) and len(st.value.values) == 2 and is_name(st.value.values[0], st.targets[0].id):
+                    out[st.targets[0].id] = (st.value.values[1], n.target.id, n.iter)
+                # if P(x): flag = True
+                if isinstance(st, _ast.If) and not st.orelse and len(st.body) == 1 and isinstance(st.body[0], _ast.Assign) and len(st.body[0].targets) == 1 and isinstance(st.body[0].targets[0], _ast.Name) and is_true(st.body[0].value):
+                    out[st.body[0].targets[0].id] = (st.test, n.target.id, n.iter)
+    # the loop forms need the flag to start False
+    for name in list(out):
+        inits = [a for a in _ast.walk(fd) if isinstance(a, _ast.Assign) and len(a.targets) == 1 and is_name(a.targets[0], name) and isinstance(a.value, _ast.Constant)]
+        if inits and not all(is_false(a.value) for a in inits):
+            out.pop(name)
+    return out
+
+
+def forall_predicates(fd):
+    """names of fd bound to "every element of a sequence satisfies P": all(P(x) for x in seq) / seq.every(x => P(x))
+    -> {name: (P, element variable, sequence)}"""
+    import ast as _ast
+    out = {}
+    for n in _ast.walk(fd):
+        if isinstance(n, _ast.Assign) and len(n.targets) == 1 and isinstance(n.targets[0], _ast.Name):
+            v = n.value
+            if isinstance(v, _ast.Call) and isinstance(v.func, _ast.Name) and v.func.id == 'all' and len(v.args) == 1 and isinstance(v.args[0], (_ast.GeneratorExp, _ast.ListComp)) and len(v.args[0].generators) == 1 and isinstance(v.args[0].generators[0].target, _ast.Name):
+                g = v.args[0].generators[0]
+                out[n.targets[0].id] = (v.args[0].elt, g.target.id, g.iter)
+            if isinstance(v, _ast.Call) and isinstance(v.func, _ast.Attribute) and v.func.attr == 'every' and len(v.args) == 1:
+                fn = v.args[0]
+                prm = body = None
+                if isinstance(fn, _ast.Lambda) and fn.args.args:
+                    prm, body = fn.args.args[0].arg, fn.body
+                else:
+                    ref = getattr(fn, 'js_function_ref', None)
+                    if ref is not None and ref.args.args and len(ref.body) == 1 and isinstance(ref.body[0], _ast.Return):
+                        prm, body = ref.args.args[0].arg, ref.body[0].value
+                if prm is not None and body is not None:
+                    out[n.targets[0].id] = (body, prm, v.func.value)
+    return out
